@@ -10,23 +10,27 @@ Open Scope Z_scope.
 
 Inductive wev :=
 | WRecv (n : Z) (validates : bool)    (* n bytes reach the server; [validates]: from now on the address is validated *)
-| WSend (n : Z).                      (* the server emits an n-byte datagram towards the client *)
+| WSend (n : Z)                       (* the server emits an n-byte datagram packed after a SendMode check *)
+| WSendU (n : Z).                     (* ... a datagram that does not go through SendMode: a CONNECTION_CLOSE written when
+                                         closing, its retransmission by the closed-connection handler, a stateless Retry *)
 
 Record wst := WS { wsent : Z; wrcvd : Z; wval : bool }.
 
 Definition wstep (w : wst) (e : wev) : wst :=
   match e with
   | WRecv n v => WS (wsent w) (wrcvd w + n) (wval w || v)
-  | WSend n => WS (wsent w + n) (wrcvd w) (wval w)
+  | WSend n | WSendU n => WS (wsent w + n) (wrcvd w) (wval w)
   end.
 
-(** every datagram towards an unvalidated address is started at or under three times what arrived *)
-Definition wsend_ok (w : wst) : bool := wval w || (wsent w <=? 3 * wrcvd w).
+(** a datagram towards an unvalidated address packed after a SendMode check is started strictly under three
+    times what arrived (SendMode is SendNone AT the limit); the ungated ones at or under it *)
+Definition wsend_ok (w : wst) : bool := wval w || (wsent w <? 3 * wrcvd w).
+Definition wsendu_ok (w : wst) : bool := wval w || (wsent w <=? 3 * wrcvd w).
 
 Fixpoint wire_ok (w : wst) (tr : list wev) : bool :=
   match tr with
   | [] => true
-  | e :: r => (match e with WSend _ => wsend_ok w | _ => true end) && wire_ok (wstep w e) r
+  | e :: r => (match e with WSend _ => wsend_ok w | WSendU _ => wsendu_ok w | _ => true end) && wire_ok (wstep w e) r
   end.
 
 Definition wrun (w : wst) (tr : list wev) : wst := fold_left wstep tr w.
@@ -37,10 +41,10 @@ Definition cevents (c : cstate) (o : cop) : list wev :=
   | SphOp (Recv n _), None => [WRecv n false]
   | SphOp (RecvPkt l _), None => [WRecv 0 ((l =? amp_EncHandshake) && negb (validated (sph c)))]
   | SphOp (TrySend _ pkts), None => if sendMode (sph c) =? amp_SendNone then [] else [WSend (dgram_size pkts)]
-  | Close hc size, None => if close_suppressed (sph c) hc then [] else [WSend size]
+  | Close hc size, None => if close_suppressed (sph c) hc then [] else [WSendU size]
   | ClosedRecv n, Some p =>
     WRecv n false ::
-    (if (0 <? p) && is_pow2 (cCount c + 1) && (cSent c + p <=? 3 * (cRcvd c + n)) then [WSend p] else [])
+    (if (0 <? p) && is_pow2 (cCount c + 1) && (cSent c + p <=? 3 * (cRcvd c + n)) then [WSendU p] else [])
   | _, _ => []
   end.
 
